@@ -1355,6 +1355,11 @@ ares_status_t ares_send_query(ares_server_t *requested_server,
       return status;
   }
 
+  /* The query is on the wire (or in the connection's output buffer) from here
+   * on, it counts towards the connection's query limit whatever happens to
+   * the bookkeeping below */
+  conn->total_queries++;
+
   timeplus = ares_calc_query_timeout(query, server, now);
   /* Keep track of queries bucketed by timeout, so we can process
    * timeout events quickly.
@@ -1386,7 +1391,6 @@ ares_status_t ares_send_query(ares_server_t *requested_server,
   }
 
   query->conn = conn;
-  conn->total_queries++;
 
   /* We just successfully enqueud a query, see if we should probe downed
    * servers. */
